@@ -19,6 +19,8 @@ def scn_line(scn):
     t.append(str(len(scn['cbs'])))
     for c in scn['cbs']:
         t += code_toks(c)
+    if scn.get('cbraise'):   # trailer only when there is something to say: the lines of the older scenarios are unchanged
+        t += [str(len(scn['cbraise']))] + [str(k) for k in scn['cbraise']]
     return ' '.join(t)
 
 
@@ -66,8 +68,28 @@ LIFECYCLE_HOOKS = ['on_create', 'on_entering', 'on_entered', 'on_exiting', 'on_r
                    'on_kill', 'on_killed', 'on_terminated', 'on_close']
 
 
+CBEXC = 'h.callback_excepted'
+
+
 def is_lifecycle(kind):
     return kind.startswith('h.') and kind[2:] in LIFECYCLE_HOOKS
+
+
+def is_outside_hook(kind):
+    """hooks that the code runs outside _process_scope: the lifecycle hooks and callback_excepted"""
+    return is_lifecycle(kind) or kind == CBEXC
+
+
+def sandwiched(stack):
+    """the same process twice on the stack with another one in between (a part of `outer` run from code of `inner` that runs
+    inside a step of `outer`): the shape that tells `pop()` from `remove(self)`"""
+    if not stack:
+        return False
+    for i, p in enumerate(stack):
+        for j in range(i + 2, len(stack)):
+            if stack[j] == p and any(q != p for q in stack[i + 1:j]):
+                return True
+    return False
 
 
 def expected_final(steps):
@@ -95,6 +117,11 @@ def monitor(scn, r, class_of=None):
     * no scope assertion / stray exception: every process ends as its program says                 -> scope-assertion-failed, unexpected-final
       (a process whose step was left through a cancellation stays in the state it was in; one whose step raised a BaseException
       stays RUNNING: neither is a transition)
+    * `h.callback_excepted` (the public hook called after a scheduled callback raised, i.e. after the callback's scope was left, in
+      the callback's task): must observe the *previous value* — what the code that called `call_soon` observed at that moment —
+      and the stack that code had.  Any other value                                                -> hook-current-unexpected:callback_excepted
+      (+ stack-not-restored:h.callback_excepted); the previous value, when it is not the owner, is one more hook outside the scope
+                                                                                                   -> hook-outside-scope:callback_excepted (F14)
     The kinds `absorbed` (the `except` clause of a parent that awaited a child inline and got a BaseException / cancellation out
     of it) and `iret` (after that statement) are in-scope code points of the parent: "after the scope is left - also through a
     BaseException or a cancellation - the previous value is restored" is `current-wrong:absorbed` / `stack-not-restored:absorbed`.
@@ -103,8 +130,17 @@ def monitor(scn, r, class_of=None):
     creator = r['creator']
     for i, ch in enumerate(r['chunks']):
         for o in ch.get('obs', []):
-            owner, kind, cur, stack, expect = o
-            if is_lifecycle(kind):
+            owner, kind, cur, stack, expect = o[:5]
+            if kind == CBEXC:
+                prev = o[5][0] if len(o) > 5 else None
+                if cur != prev:
+                    out.append(('hook-current-unexpected:callback_excepted',
+                                'once scoped code returned, the previous value is what other code observes',
+                                dict(op_index=i, owner=owner, observed=cur, previous=prev)))
+                elif cur != owner:
+                    out.append(('hook-outside-scope:callback_excepted', 'current() is the process inside its hooks',
+                                dict(op_index=i, owner=owner, observed=cur)))
+            elif is_lifecycle(kind):
                 if cur != owner:
                     prev = creator.get(owner, creator.get(str(owner)))
                     if cur == prev:
@@ -251,7 +287,7 @@ def random_scenario(rng, big=False):
 
 def scenario_size(scn):
     return (sum(len(st['code']) + 1 for c in scn['classes'] for st in c) + sum(len(c) + 1 for c in scn['cbs']) + len(scn['top'])
-            + len(scn.get('ext', [])) + len(scn.get('kills', [])) + len(scn.get('cancels', [])))
+            + len(scn.get('ext', [])) + len(scn.get('kills', [])) + len(scn.get('cancels', [])) + len(scn.get('cbraise', [])))
 
 
 # ------------------------------------------------------------------------------------------------- inline awaits, BaseExceptions, cancellation
@@ -327,4 +363,103 @@ def random_scenario_inline(rng, big=False):
     awaiting = [t for t, k in enumerate(scn['top']) if any(a[0] == 'i' for st in scn['classes'][k] for a in st['code'])]
     scn['cancels'] = [rng.choice(awaiting) if awaiting and rng.random() < 0.7 else rng.randrange(len(scn['top']) + 3)
                       for _ in range(rng.choice([0, 1, 1, 2, 3]))]
+    return scn
+
+
+# ------------------------------------------------------------------------------------------------- callbacks on the creator, callbacks that raise
+
+def corpus_cbexc():
+    """small scenarios with callbacks scheduled on the CREATOR of the running process ('p<k>') and callbacks that end by raising
+    (sample in `callback_excepted`, after the callback's scope), explored over ALL interleavings.  The first ones are exactly the
+    shape that tells `stack.pop()` from `stack.remove(self)` at the exit of `_process_scope`: the step of `outer` executes /
+    awaits inline / launches `inner`, the step of `inner` schedules a callback on `outer`; the callback's task inherits
+    [outer, inner], its scope makes it [outer, inner, outer], and what runs after that scope must find [outer, inner] again"""
+    leaf = [S(['a', 'o'])]
+    out = [
+        ('cbexc-execute-sandwich', dict(classes=[[S(['x1', 'o'])], [S(['p0', 'a', 'a', 'o'])]], cbs=[['o']], top=[0], cbraise=[0])),
+        ('cbexc-inline-sandwich', dict(classes=[[S(['i1', 'o', 'a'])], [S(['p0', 'a', 'o'])]], cbs=[['o', 'a']], top=[0], cbraise=[0])),
+        ('cbexc-launch-sandwich', dict(classes=[[S(['l1', 'a', 'o'])], [S(['a', 'p0', 'o'])]], cbs=[['a', 'o']], top=[0], cbraise=[0])),
+        ('cbexc-sandwich+peer', dict(classes=[[S(['x1'])], [S(['p0', 'a'])], leaf], cbs=[['a']], top=[0, 2], cbraise=[0])),
+        ('cbexc-sandwich-then-scopes', dict(classes=[[S(['x1', 'o'])], [S(['p0', 'a', 'o'])], [S(['o'])]],
+                                            cbs=[['o', 'c1', 'x2', 'i2'], ['o']], top=[0], cbraise=[1])),
+        ('cbexc-depth3', dict(classes=[[S(['x1', 'o'])], [S(['a', 'x2', 'o'])], [S(['p0', 'a'])]], cbs=[['p1', 'o'], ['o', 'a']],
+                              top=[0], cbraise=[0, 1])),
+        ('cbexc-inline-depth3', dict(classes=[[S(['i1', 'o'])], [S(['i2', 'p0'])], [S(['p0', 'a'])]], cbs=[['o']], top=[0, 0], cbraise=[0])),
+        ('cbexc-returns-on-creator', dict(classes=[[S(['x1', 'a'])], [S(['p0', 'a', 'p0'])], leaf], cbs=[['o', 'a']], top=[0, 2])),
+        ('cbexc-own-callback', dict(classes=[[S(['c0', 'a', 'o'])]], cbs=[['o', 'a']], top=[0, 0], cbraise=[0])),
+        ('cbexc-external', dict(classes=[[S(['a', 'o'])], leaf], cbs=[['a', 'o']], top=[0, 1], ext=[[0, 0]], cbraise=[0])),
+        ('cbexc-external-in-nested', dict(classes=[[S(['x1', 'o'])], [S(['a'])]], cbs=[['o']], top=[0], ext=[[0, 0]], cbraise=[0])),
+        ('cbexc-after-termination', dict(classes=[[S(['l1'])], [S(['a', 'p0', 'a', 'p1'])]], cbs=[['o'], ['a']], top=[0], cbraise=[0, 1])),
+        ('cbexc-top-level-has-no-creator', dict(classes=[[S(['p0', 'o', 'c0'])]], cbs=[['p0', 'o']], top=[0], cbraise=[0])),
+        ('cbexc-cancelled-callback', dict(classes=[[S(['x1', 'o'])], [S(['p0', 'a', 'a'])]], cbs=[['a', 'o']], top=[0], cbraise=[0], cancels=[2])),
+        ('cbexc-inline-child-absorbed', dict(classes=[[S(['i1', 'o'])], [S(['p0', 'a'], 'base')], [S(['a'], 'base')]],
+                                             cbs=[['i2', 'o']], top=[0], cbraise=[0], cancels=[1])),
+        ('cbexc-waiting-creator', dict(classes=[[S(['l1'], 'wait'), S(['o'])], [S(['a', 'p0'], 'wait'), S(['p0'])]], cbs=[['o']],
+                                       top=[0], cbraise=[0], kills=[0, 1])),
+        ('cbexc-chain-up', dict(classes=[[S(['l1', 'a'])], [S(['x2', 'a'])], [S(['p0', 'a'])]], cbs=[['o', 'p1'], ['o', 'a']],
+                                top=[0], cbraise=[1])),
+        ('cbexc-sync-only', dict(classes=[[S(['x1', 'x1', 'o'])], [S(['p0', 'o', 'p1'])]], cbs=[['o', 'c1'], ['o']], top=[0], cbraise=[0, 1])),
+    ]
+    return out
+
+
+def _safe_cbs(cbs):
+    """callbacks that instantiate nothing, directly or through the callbacks they schedule (which are later ones)"""
+    safe = [False] * len(cbs)
+    for j in range(len(cbs) - 1, -1, -1):
+        safe[j] = all(a[0] not in 'xil' and (a[0] not in 'cp' or safe[int(a[1:])]) for a in cbs[j])
+    return [j for j in range(len(cbs)) if safe[j]]
+
+
+def _cb_spawnable(scn):
+    """the classes that callbacks instantiate, directly or through the children of those: such a class may only schedule `safe`
+    callbacks on its creator (a callback that instantiates it again would never end); the generators give them no `c` acts"""
+    spawns = lambda code: {int(a[1:]) for a in code if a[0] in 'lxi'}  # noqa: E731
+    todo = set().union(*[spawns(c) for c in scn['cbs']]) if scn['cbs'] else set()
+    seen = set()
+    while todo:
+        k = todo.pop()
+        if k in seen:
+            continue
+        seen.add(k)
+        for st in scn['classes'][k]:
+            todo |= spawns(st['code'])
+    return seen
+
+
+def random_scenario_cbexc(rng, big=False):
+    """a random scenario (half of them with inline awaits / BaseException endings / cancellations) in which processes also
+    schedule callbacks on their creator and some callbacks end by raising"""
+    scn = random_scenario_inline(rng, big) if rng.random() < 0.5 else random_scenario(rng, big)
+    if len(scn['classes']) == 1:
+        # somebody has to be created by a process: a new first class that executes / awaits inline / launches the old one
+        scn['classes'].insert(0, [S([rng.choice('xil') + '1'] + rng.choice([[], ['o'], ['a'], ['a', 'o']]))])
+        scn['cbs'] = [[a[0] + str(int(a[1:]) + 1) if a[0] in 'xi' else a for a in c] for c in scn['cbs']]
+        scn['top'] = ([0] + [k + 1 for k in scn['top']])[:4] if rng.random() < 0.5 else [0] * len(scn['top'])
+    n = len(scn['classes'])
+    if not scn['cbs']:
+        scn['cbs'] = [rng.choice([['o'], ['a', 'o'], ['o', 'a'], []])]
+    n_cbs = len(scn['cbs'])
+    # callbacks schedule later callbacks on the creator of their process
+    for j, c in enumerate(scn['cbs'][:-1]):
+        if rng.random() < 0.3:
+            c.insert(rng.randint(0, len(c)), f'p{rng.randint(j + 1, n_cbs - 1)}')
+    safe = _safe_cbs(scn['cbs'])
+    restricted = _cb_spawnable(scn)
+    targets = lambda k: safe if k in restricted else list(range(n_cbs))  # noqa: E731
+    placed = 0
+    for k in range(1, n):
+        for st in scn['classes'][k]:
+            if targets(k) and rng.random() < 0.6:
+                st['code'].insert(rng.randint(0, len(st['code'])), f'p{rng.choice(targets(k))}')
+                placed += 1
+    if not placed:
+        k = rng.randrange(1, n)
+        if targets(k):
+            code = rng.choice(scn['classes'][k])['code']
+            code.insert(rng.randint(0, len(code)), f'p{rng.choice(targets(k))}')
+    if targets(0) and rng.random() < 0.25:   # also on the first class: mostly instantiated at top level (no creator, nothing scheduled)
+        code = rng.choice(scn['classes'][0])['code']
+        code.insert(rng.randint(0, len(code)), f'p{rng.choice(targets(0))}')
+    scn['cbraise'] = [j for j in range(n_cbs) if rng.random() < 0.6] or [rng.randrange(n_cbs)]
     return scn
